@@ -1,5 +1,6 @@
 SPECIFICATION GenSpec
 CONSTANTS
+  MaxFailed = 1
   MaxPrev = 3
   MaxDecodes = 3
   Canonical = TRUE
